@@ -4,11 +4,12 @@ def run(tier, prop="C19", lang="C19"):
     c = Check(prop, tier)
     q = tier == "quick"
     f = [os.path.join(VERIF, "harness/tlast/zz_verif_c19.go")]
-    params = {"lexN": 3, "ins": 1, "printN": 1, "skel": c.seed % 4, "tailN": 1} if q else {"lexN": 4, "ins": 2, "printN": 2, "skel": -1, "tailN": 3}
-    rx = "^Verif%s(Lexer|ParseMutated|ParseTail)$" % lang if prop == "C20" else "^VerifC19(Lexer|ParseMutated|ParseTail|PrintError)$"
+    params = {"lexN": 3, "ins": 1, "printN": 1, "skel": c.seed % 6, "tailN": 1} if q else {"lexN": 4, "ins": 2, "printN": 2, "skel": -1, "tailN": 3}
+    rx = "^Verif%s(Lexer|ParseMutated|ParseTail|ParseTruncated)$" % lang if prop == "C20" else "^VerifC19(Lexer|ParseMutated|ParseTail|PrintError|ParseTruncated)$"
     c.run_pkg(REPO, "./internal/tlast", os.path.join(REPO, "internal/tlast"), "tlast", f, rx, params=params, max_models=10 if q else 40,
               wall="90s" if q else "900s", soft_trunc="record")
     c.assumptions += ["lexer: EVERY byte string up to lexN bytes; parser: valid skeleton schemas with one byte substituted by any of the 256 values, <= ins arbitrary bytes inserted, or truncated, at every position",
                       "parser contexts: a valid prefix that puts the parser into each of its states (list in harness/tlast/zz_verif_c19.go), then EVERY byte string of <= tailN bytes, then an optional valid ending",
+                      "ParseTruncated: every prefix of every skeleton (all skeletons in both tiers)",
                       "error printing: arbitrary (also inconsistent) offsets over a text of <= printN bytes; output is discarded (fmt.Fprintf stubbed)"]
     return c.finish(bounds=params, outside=["longer arbitrary texts (the lexer is a one-token-at-a-time loop over the remaining string)", "mutations of more than ins+1 bytes at once", "skeletons other than the built-in ones"])
